@@ -258,6 +258,11 @@ def run(R, replay=None):
            ("report-exists", lambda d: open(os.path.join(d, "bandit_baseline_result.json"), "w").write("{}"), ["a.py", "-f", "json"]),
            ("tmpfile-exists", lambda d: open(os.path.join(d, "_bandit_baseline_run.json_"), "w").write("{}"), ["a.py"]),
            ("-o", lambda d: None, ["a.py", "-o", "x.txt"]),
+           ("staged-edit-working-copy-reverted", lambda d: (open(os.path.join(d, "a.py"), "a").write("# staged\n"), git(d, "add", "a.py"),
+                                                            open(os.path.join(d, "a.py"), "w").write("assert x\n")), ["a.py"]),
+           ("staged-edit", lambda d: (open(os.path.join(d, "a.py"), "a").write("# staged\n"), git(d, "add", "a.py")), ["a.py"]),
+           ("staged-new-file", lambda d: (open(os.path.join(d, "n.py"), "w").write("x = 1\n"), git(d, "add", "n.py")), ["a.py"]),
+           ("staged-deletion", lambda d: git(d, "rm", "-q", "--cached", "b.py"), ["a.py"]),
            ("not-a-repo", None, ["a.py"])]
     for name, prep, argv in pre:
         k += 1
